@@ -636,6 +636,15 @@ def systematic_cases(valid_only=True):
             out.append(("ParseDDL", ("CREATE TABLE t (a INT64%s)%s" % (o, k)).encode()))
             out.append(("ParseDDL", ("ALTER TABLE t ADD COLUMN a INT64%s" % o).encode()))
     out += query_systematic()
+    # the interleave clause: [PARENT] x [ON DELETE action], in CREATE TABLE and ALTER TABLE ... SET; foreign-key actions and enforcement
+    for parent in ("", "PARENT "):
+        for act in ("", " ON DELETE CASCADE", " ON DELETE NO ACTION"):
+            out.append(("ParseDDL", ("CREATE TABLE c (id INT64) PRIMARY KEY (id), INTERLEAVE IN %sp%s" % (parent, act)).encode()))
+            out.append(("ParseStatement", ("ALTER TABLE c SET INTERLEAVE IN %ss.p%s" % (parent, act)).encode()))
+    for act in ("", " ON DELETE CASCADE", " ON DELETE NO ACTION"):
+        for enf in ("", " ENFORCED", " NOT ENFORCED"):
+            out.append(("ParseDDL", ("CREATE TABLE c (a INT64, CONSTRAINT fk FOREIGN KEY (a) REFERENCES p (b)%s%s) PRIMARY KEY (a)" % (act, enf)).encode()))
+            out.append(("ParseDDL", ("ALTER TABLE c ADD FOREIGN KEY (a, b) REFERENCES p (x, y)%s%s" % (act, enf)).encode()))
     # tables without columns (only constraints / synonyms), and without anything
     for body in ("", "SYNONYM (s)", "CONSTRAINT c CHECK (TRUE)", "CHECK (TRUE), SYNONYM (s)", "FOREIGN KEY (a) REFERENCES u (b), SYNONYM (s1), SYNONYM (s2)",
                  "CONSTRAINT fk FOREIGN KEY (a) REFERENCES u (b)"):
@@ -848,4 +857,124 @@ def precedence_cases(rnd, max_ops, n_random):
         if not t_valid(t):
             continue
         out.append((t_spell(t).encode(), t_shape(t)))
+    return out
+
+
+# ---------------------------------------------------------------- type expressions (the whole grammar of ParseType)
+TYPE_SYMS = [b"INT64", b"string", b"a", b"b", b"ARRAY", b"STRUCT", b"<", b">", b"<>", b">>", b",", b".", b" "]
+
+
+def type_trees(depth, names=(b"INT64", b"STRING", b"a", b"a.b", b"`x y`.c", b"Bool", b"`bytes`")):
+    """all type expressions of the given nesting depth over a small alphabet, as lists of lexemes (closers are single '>')"""
+    if depth == 0:
+        return [[n] for n in names[:4]]
+    sub = type_trees(depth - 1)
+    out = [[n] for n in names]
+    for t in sub:
+        out.append([b"ARRAY", b"<"] + t + [b">"])
+    out.append([b"STRUCT", b"<", b">"])
+    out.append([b"STRUCT", b"<>"])
+    for t in sub:
+        out.append([b"STRUCT", b"<"] + t + [b">"])
+        out.append([b"STRUCT", b"<", b"f"] + t + [b">"])
+        out.append([b"STRUCT", b"<", b"int64"] + t + [b",", b"g", b"INT64", b">"])
+    for t in sub[:6]:
+        for u in sub[:6]:
+            out.append([b"STRUCT", b"<"] + t + [b","] + u + [b">"])
+    return out
+
+
+def join_compact(lexemes):
+    """no white space except between two words (so that adjacent closers fuse into >>, and <> appears for an empty struct)"""
+    out = b""
+    for x in lexemes:
+        if out and (out[-1:].isalnum() or out[-1:] in b"_`") and (x[:1].isalnum() or x[:1] in b"_`"):
+            out += b" "
+        out += x
+    return out
+
+
+def type_cases(rnd, quick):
+    import itertools
+    cases = []
+    # every sequence of <= 4 (5) symbols, glued without separator (the symbol " " gives the spaced variants)
+    for n in range(1, (4 if quick else 5) + 1):
+        for seq in itertools.product(TYPE_SYMS, repeat=n):
+            cases.append(b"".join(x if x in (b"<", b">", b"<>", b">>", b",", b".", b" ") else x + b" " for x in seq))
+    trees = type_trees(3 if quick else 4)
+    if len(trees) > (4000 if quick else 60000):
+        trees = rnd.sample(trees, 4000 if quick else 60000)
+    for t in trees:
+        cases.append(join_compact(t))
+        cases.append(b" ".join(t))
+        cases.append(b" /*c*/ ".join(t))
+    # near misses: one lexeme dropped, doubled or replaced
+    for t in rnd.sample(trees, min(len(trees), 1500 if quick else 20000)):
+        i = rnd.randrange(len(t))
+        k = rnd.randrange(3)
+        u = t[:i] + t[i + 1:] if k == 0 else t[:i] + [t[i]] + t[i:] if k == 1 else t[:i] + [rnd.choice(TYPE_SYMS + [b"1", b"(", b")", b";"])] + t[i + 1:]
+        cases.append(join_compact(u))
+    return sorted(set(cases))
+
+
+# ---------------------------------------------------------------- systematic error injection (inputs for the error-contract properties)
+INJECT_BASE = [
+    ("ParseQuery", "SELECT a , b FROM t WHERE x = 1 GROUP BY a HAVING c > 2 ORDER BY a LIMIT 1 OFFSET 2"),
+    ("ParseQuery", "SELECT 1 FROM t UNION ALL SELECT 2 FROM u LIMIT 3"),
+    ("ParseQuery", "( SELECT 1 FROM t ) UNION ALL ( SELECT 2 ) ORDER BY 1 LIMIT 4"),
+    ("ParseQuery", "SELECT * FROM ( SELECT 1 AS x UNION DISTINCT SELECT 2 ) AS s JOIN u ON s . x = u . y"),
+    ("ParseQuery", "WITH w AS ( SELECT 1 AS x ) SELECT x FROM w INTERSECT ALL SELECT 2 LIMIT 1"),
+    ("ParseQuery", "SELECT ( SELECT 1 EXCEPT DISTINCT SELECT 2 LIMIT 1 ) , ARRAY ( SELECT 3 )"),
+    ("ParseQuery", "SELECT f ( 1 , g ( 2 ) ) , a [ OFFSET ( 0 ) ] , CASE WHEN x THEN 1 ELSE 2 END FROM t"),
+    ("ParseQuery", "SELECT CAST ( x AS ARRAY < STRUCT < a INT64 , b STRING > > ) , IF ( a , b , c ) FROM t TABLESAMPLE BERNOULLI ( 1 PERCENT )"),
+    ("ParseQuery", "SELECT GET_NEXT_SEQUENCE_VALUE ( SEQUENCE s ) , EXTRACT ( DAY FROM d ) , [ 1 , 2 ] , STRUCT ( 1 AS a ) FROM t"),
+    ("ParseQuery", "SELECT * FROM a LEFT JOIN b USING ( x ) CROSS JOIN UNNEST ( [ 1 , 2 ] ) AS e WITH OFFSET AS o"),
+    ("ParseQuery", "FROM t |> WHERE a > 1 |> SELECT a , b |> WHERE b"),
+    ("ParseQuery", "SELECT NEW p . M { a : 1 , b : { c : 2 } } , x . * , y . * EXCEPT ( z ) FROM t"),
+    ("ParseExpr", "a + b * f ( c , d ) - ( e [ 1 ] ) . g"),
+    ("ParseExpr", "x IN ( 1 , 2 ) AND y BETWEEN 3 AND 4 OR z IS NOT NULL"),
+    ("ParseExpr", "EXISTS ( SELECT 1 ) OR x IN UNNEST ( [ 1 ] ) OR ARRAY < INT64 > [ 1 ]"),
+    ("ParseExpr", "CASE x WHEN 1 THEN 2 WHEN 3 THEN 4 ELSE 5 END + DATE '2020-01-01'"),
+    ("ParseStatement", "INSERT INTO t ( a , b ) VALUES ( 1 , 2 ) , ( 3 , DEFAULT ) THEN RETURN WITH ACTION AS act a , b"),
+    ("ParseStatement", "INSERT INTO t ( a ) SELECT 1 FROM u UNION ALL SELECT 2 LIMIT 3"),
+    ("ParseStatement", "UPDATE t AS x SET x . a = 1 , b = DEFAULT WHERE c = 2 THEN RETURN *"),
+    ("ParseStatement", "DELETE FROM t WHERE a IN ( SELECT b FROM u ) THEN RETURN a"),
+    ("ParseStatement", "CREATE TABLE t ( a INT64 NOT NULL , b ARRAY < STRING ( MAX ) > , c INT64 AS ( a + 1 ) STORED , CONSTRAINT k CHECK ( a > 0 ) ) PRIMARY KEY ( a ) , INTERLEAVE IN PARENT p ON DELETE CASCADE"),
+    ("ParseStatement", "CREATE INDEX i ON t ( a DESC , b ) STORING ( c ) , INTERLEAVE IN p"),
+    ("ParseStatement", "ALTER TABLE t ADD COLUMN c STRING ( 10 ) DEFAULT ( 'x' ) OPTIONS ( o = 1 )"),
+    ("ParseStatement", "CREATE VIEW v SQL SECURITY INVOKER AS SELECT a FROM t UNION ALL SELECT b FROM u"),
+    ("ParseStatement", "CREATE CHANGE STREAM s FOR t ( a , b ) , u OPTIONS ( r = '1d' )"),
+    ("ParseStatement", "GRANT SELECT ( a , b ) , INSERT ON TABLE t , u TO ROLE r1 , r2"),
+    ("ParseStatement", "CREATE SEQUENCE s BIT_REVERSED_POSITIVE SKIP RANGE 1 , 2 START COUNTER WITH 3 OPTIONS ( o = 1 )"),
+    ("ParseStatement", "CALL p ( 1 , ( SELECT 2 ) )"),
+    ("ParseType", "STRUCT < a ARRAY < STRUCT < b INT64 , c x . y > > , d STRING >"),
+]
+BAD_PARSE = [b"( 1 + )", b"g ( 1 2 )", b"a [ 1 + ]", b"( SELECT 1 2 )", b"CASE WHEN 1 2 THEN 3 END", b"x y z"]
+BAD_LEX = [b"1a", b"'abc", b'"abc', b"`x", b"/* open", b"0x", b"1e+", b"'a\\q'"]
+
+
+def injection_cases(rnd, quick):
+    """every word position of the base sentences replaced by a construct with a syntax error inside (so that the error is recovered in a
+    nested production), every position deleted, and every PAIR (parse-level error at i, token that does not lex at j > i)"""
+    import re
+    out = []
+    word = re.compile(rb"^[A-Za-z_@][A-Za-z0-9_]*$|^[0-9]+$|^'.*'$")
+    for (e, s_) in INJECT_BASE:
+        toks = s_.encode().split(b" ")
+        for i in range(len(toks)):
+            out.append((e, b" ".join(toks[:i] + toks[i + 1:])))
+            out.append((e, b" ".join(toks[:i])))
+            if word.match(toks[i]):
+                for b_ in BAD_PARSE:
+                    out.append((e, b" ".join(toks[:i] + [b_] + toks[i + 1:])))
+                out.append((e, b" ".join(toks[:i] + [BAD_LEX[i % len(BAD_LEX)]] + toks[i + 1:])))
+        # pairs
+        n = len(toks)
+        pairs = [(i, j) for i in range(n) for j in range(i + 1, n)]
+        if quick and len(pairs) > 150:
+            pairs = rnd.sample(pairs, 150)
+        for (i, j) in pairs:
+            first = BAD_PARSE[(i + j) % len(BAD_PARSE)] if word.match(toks[i]) else b""
+            t2 = toks[:i] + ([first] if first else []) + toks[i + 1:j] + [BAD_LEX[(i * 7 + j) % len(BAD_LEX)]] + toks[j + 1:]
+            out.append((e, b" ".join(t2)))
     return out
